@@ -62,10 +62,39 @@ class C19(Property):
                 vals.append(v)
         return items, vals
 
+    def choice_family(self, rng, k):
+        """A group holding a CHOICE between two flags (`--job (-v | -q) NAME`), next to an ordinary switch that has the name
+        of one alternative: with both alternatives on the line the one the group did not take goes to the switch, and
+        what stands right of it is no neighbour of the block any more."""
+        names = gen.Names(rng, unicode_ok=False)
+        lead = gen.req_flag(names.named(help_p=0.0), "unit")
+        a = gen.req_flag(names.named(help_p=0.0), "(num 1)")
+        b = gen.req_flag(names.named(help_p=0.0), "(num 2)")
+        g = gen.adj(lead, gen.alt(a, b), gen.pos("NAME", "string"))
+        outer = gen.flag(dict(rng.choice([a, b])["n"]))
+        node = gen.wrap("many", g) if rng.random() < 0.6 else g
+        group_first = rng.random() < 0.5
+        top = [node, outer] if group_first else [outer, node]
+        opts = gen.options(gen.con(*top), descr="L19c")
+        out = []
+        L, A, B = gen.spell_flag(rng, lead), gen.spell_flag(rng, a), gen.spell_flag(rng, b)
+        # complete blocks: accepted
+        # (when the switch is evaluated first it takes its name out of the block: no expectation then)
+        for j, line in enumerate([[L, A, b"B0q"], [L, B, b"B0q"]]):
+            out.append(Case("h%db%d" % (k, j), opts, line, tags={"role": "base" if group_first else "info", "group": "h%d" % k, "blocks": [[b"B0q"]], "gnames": []}))
+        # both alternatives inside one block: whichever the group takes, the other one separates NAME from the block
+        for j, line in enumerate([[L, A, B, b"B0q"], [L, B, A, b"B0q"]]):
+            out.append(Case("h%dx%d" % (k, j), opts, line, tags={"role": "split", "group": "h%d" % k, "blocks": [[b"B0q"]], "gnames": []}))
+        return out
+
     def generate(self, rng, tier, n):
         cases = []
         k = 0
         while len(cases) < n:
+            if rng.random() < 0.06:
+                cases.extend(self.choice_family(rng, k))
+                k += 1
+                continue
             opts, g, rep, others = self.gen_def(rng)
             gnames = []
             for f in g["fields"]:
@@ -154,6 +183,9 @@ class C19(Property):
                     out.append(Finding("violation", c, "complete blocks in order (other options between them, positionals after them) "
                                                        "must yield one value per block in command-line order %r: %s"
                                        % (want, common.show(ic))))
+            if role == "split" and compare.impl_class(ic) == "OK" and b"B0q" in self.sentinels_in(ic[1]):
+                out.append(Finding("violation", c, "a block interrupted by an item the group did not take (it went to the switch "
+                                                   "outside the group) still gave a group value: %s" % common.show(ic)))
             if compare.impl_class(ic) != "OK":
                 continue
             nontrivial.append(c.line())
